@@ -38,8 +38,13 @@ type APReq struct {
 
 // NewAPReq generates a new KRB_AP_REQ struct.
 func NewAPReq(tkt Ticket, sessionKey types.EncryptionKey, auth types.Authenticator) (APReq, error) {
+	return newAPReq(tkt, sessionKey, auth, authenticatorKeyUsage(tkt.SName))
+}
+
+// newAPReq generates a new KRB_AP_REQ struct whose authenticator is encrypted with the key usage given.
+func newAPReq(tkt Ticket, sessionKey types.EncryptionKey, auth types.Authenticator, usage int) (APReq, error) {
 	var a APReq
-	ed, err := encryptAuthenticator(auth, sessionKey, tkt)
+	ed, err := encryptAuthenticator(auth, sessionKey, tkt, usage)
 	if err != nil {
 		return a, krberror.Errorf(err, krberror.KRBMsgError, "error creating Authenticator for AP_REQ")
 	}
@@ -54,13 +59,12 @@ func NewAPReq(tkt Ticket, sessionKey types.EncryptionKey, auth types.Authenticat
 }
 
 // Encrypt Authenticator
-func encryptAuthenticator(a types.Authenticator, sessionKey types.EncryptionKey, tkt Ticket) (types.EncryptedData, error) {
+func encryptAuthenticator(a types.Authenticator, sessionKey types.EncryptionKey, tkt Ticket, usage int) (types.EncryptedData, error) {
 	var ed types.EncryptedData
 	m, err := a.Marshal()
 	if err != nil {
 		return ed, krberror.Errorf(err, krberror.EncodingError, "marshaling error of EncryptedData form of Authenticator")
 	}
-	usage := authenticatorKeyUsage(tkt.SName)
 	ed, err = crypto.GetEncryptedData(m, sessionKey, uint32(usage), tkt.EncPart.KVNO)
 	if err != nil {
 		return ed, krberror.Errorf(err, krberror.EncryptingError, "error encrypting Authenticator")
